@@ -228,7 +228,7 @@ class %(name)s(Base):
 '''
 
 
-def bulk_roundtrip(m, t, multi, strpk):
+def bulk_roundtrip(m, t, multi, strpk, order=0):
     import cdd.sqlalchemy.emit  # noqa: F401  (import order: see C18 in DESIGN.md)
     from cdd.compound.openapi.gen_openapi import openapi_bulk
     from cdd.compound.openapi.gen_routes import gen_routes, upsert_routes
@@ -248,6 +248,13 @@ def bulk_roundtrip(m, t, multi, strpk):
             f.write(MODEL_SRC % {"name": name, "pk": pk, "table": name.lower() + "_tbl", "pktype": "String" if strpk else "Integer"})
         route = "/api/" + name.lower()
         crud = crud_of(m)
+        if order:  # the letters may come in any order (gen_routes documents every order as valid)
+            letters = list(crud)
+            perm = (letters[::-1], letters[1:] + letters[:1], letters[2:] + letters[:2], [letters[0]] + letters[:0:-1])
+            crud = "".join(perm[0])
+            for k in (1, 2, 3):
+                if order == k + 1:
+                    crud = "".join(perm[k])
         routes, primary_key = gen_routes(app="rest_api", model_path=model_path, model_name=name, crud=crud, route=route)
         upsert_routes(app="rest_api", routes=list(routes), routes_path=routes_path, route=route, primary_key=primary_key)
         doc = openapi_bulk(app_name="rest_api", model_paths=(model_path,), routes_paths=(routes_path,))
@@ -280,7 +287,7 @@ for _multi in (0, 1):
     for _strpk in (0, 1):
         _quick = not _multi and not _strpk
         ob("C16", "P2.bulk_roundtrip.%s.%s" % ("multi" if _multi else "single", "strpk" if _strpk else "intpk"),
-           {"m": R(1, 7), "t": R(0, 5 if _quick else len(TAILS) - 1), "multi": R(_multi, _multi), "strpk": R(_strpk, _strpk)}, tier="quick" if _quick else "thorough",
+           {"m": R(1, 7), "t": R(0, 5 if _quick else len(TAILS) - 1), "multi": R(_multi, _multi), "strpk": R(_strpk, _strpk), "order": R(0, 0)}, tier="quick" if _quick else "thorough",
            T=900, tpath=120,
            funcs=["cdd.compound.openapi.gen_routes.gen_routes", "cdd.compound.openapi.gen_routes.upsert_routes", "cdd.compound.openapi.gen_openapi.openapi_bulk",
                   "cdd.routes.emit.bottle.create", "cdd.routes.emit.bottle.read", "cdd.routes.emit.bottle.destroy", "cdd.routes.parse.bottle.bottle",
@@ -288,3 +295,8 @@ for _multi in (0, 1):
            bound="one SQLAlchemy model named %s<c> with <c> in %r, %s primary key, every non-empty CRUD subset (solver-enumerated); model and generated routes are written "
                  "to scratch files outside /repo and /verif and fed to openapi_bulk: closed $refs, operations as requested, template parameter declared, request body defined"
                  % ("Blog_Pos" if _multi else "Con", TAILS[:6] if _quick else TAILS, "str" if _strpk else "int"))(bulk_roundtrip)
+
+
+ob("C16", "P2.bulk_roundtrip.crud_order", {"m": R(3, 7), "t": R(0, 0), "multi": R(0, 0), "strpk": R(0, 0), "order": R(0, 4)}, pre="m != 4", T=900, tpath=120,
+   funcs=["cdd.compound.openapi.gen_routes.gen_routes", "cdd.compound.openapi.gen_openapi.openapi_bulk"],
+   bound="model Cong, every CRUD subset of >= 2 letters with its letters in 5 different orders (solver-enumerated), through gen_routes -> routes file -> openapi_bulk")(bulk_roundtrip)
